@@ -187,11 +187,14 @@ theorem C08_rewind_race_witness :
 
 /-! ### Clause 4: the delete-branch job tags first; nothing that was on a destination branch is lost -/
 
-/-- **Tag first (order of the plan).** In the delete-branch job the deletion of the branch is preceded by the
-    push of its archive tag, and the tag is on the tip that the clone saw. -/
-theorem C08_delete_tags_first_order (s : Sys) (d : Dest) (i : Nat)
-    (hi : (planDeleteBranchT s d)[i]? = some (.br (.delete (.dest d)))) :
-    ∃ i' c, i' < i ∧ (planDeleteBranchT s d)[i']? = some (.tag d c) ∧ s.remote.get (.dest d) = some c := by
+/-- **Tag first (order of the plan).** `tags`: the archive tags when the job starts. If the delete-branch job deletes
+    the branch at all, the branch has a tip `c` and either the push of its archive tag on `c` — the tip that the
+    clone saw — precedes the deletion, or the archive tag is on `c` already (a deletion that was interrupted after
+    the push of the tag is completed). -/
+theorem C08_delete_tags_first_order (s : Sys) (tags : Tags) (d : Dest) (i : Nat)
+    (hi : (planDeleteBranchT s tags d)[i]? = some (.br (.delete (.dest d)))) :
+    ∃ c, s.remote.get (.dest d) = some c ∧
+      ((∃ i', i' < i ∧ (planDeleteBranchT s tags d)[i']? = some (.tag d c)) ∨ Tags.get tags d = some c) := by
   unfold planDeleteBranchT at hi ⊢
   cases hc : s.remote.get (.dest d) with
   | none =>
@@ -204,25 +207,50 @@ theorem C08_delete_tags_first_order (s : Sys) (d : Dest) (i : Nat)
     · simp [hq] at hi
   | some c =>
     rw [hc] at hi
-    by_cases hq : s.remote.has (.q d) = true
-    · simp only [hq, if_true] at hi ⊢
-      match i with
-      | 0 => simp at hi
-      | 1 => simp at hi
-      | 2 => exact ⟨1, c, by omega, by simp, rfl⟩
-      | i + 3 => simp at hi
-    · simp only [hq] at hi ⊢
-      match i with
-      | 0 => simp at hi
-      | 1 => exact ⟨0, c, by omega, by simp, rfl⟩
-      | i + 2 => simp at hi
+    refine ⟨c, rfl, ?_⟩
+    cases ht : Tags.get tags d with
+    | none =>
+      rw [ht] at hi
+      refine Or.inl ?_
+      by_cases hq : s.remote.has (.q d) = true
+      · simp only [hq, if_true] at hi ⊢
+        match i with
+        | 0 => simp at hi
+        | 1 => simp at hi
+        | 2 => exact ⟨1, by omega, by simp⟩
+        | i + 3 => simp at hi
+      · simp only [hq] at hi ⊢
+        match i with
+        | 0 => simp at hi
+        | 1 => exact ⟨0, by omega, by simp⟩
+        | i + 2 => simp at hi
+    | some t =>
+      rw [ht] at hi
+      by_cases htc : t = c
+      · exact Or.inr (by rw [htc])
+      · simp [htc] at hi
 
-/-- **Tag first (what the remote shows).** At every crash point of the delete-branch job, whatever the server
-    refuses (any branch, the tag): if the destination branch is gone, its archive tag exists and is on the deleted
-    tip; no other destination or foreign ref is touched; no tag is lost. -/
+/-- **An archive tag anywhere else: the job refuses.** When the archive tag of the branch exists and is NOT on the
+    tip of the branch, the delete-branch job does nothing at all (the real job raises `JobFailure` before its first
+    remote operation) — at every crash point the remote and the tags are what they were. -/
+theorem C08_delete_refused (s : Sys) (tags : Tags) (d : Dest) (c t : Commit)
+    (hc : s.remote.get (.dest d) = some c) (ht : Tags.get tags d = some t) (hne : t ≠ c) :
+    planT s tags (.deleteBranch d) = [] ∧
+    ∀ (g : Graph) (rej : Ref → Bool) (rejTag : Bool) (k : Nat),
+      applyT g rej rejTag (s.remote, tags) ((planT s tags (.deleteBranch d)).take k) = (s.remote, tags) := by
+  have h : planT s tags (.deleteBranch d) = [] := by
+    simp only [planT, planDeleteBranchT, hc, ht, hne, if_false]
+  refine ⟨h, fun g rej rejTag k => ?_⟩
+  rw [h, List.take_nil]
+  rfl
+
+/-- **Tag first (what the remote shows).** `tags`: the archive tags when the job starts (the plan is computed from
+    them). At every crash point of the delete-branch job, whatever the server refuses (any branch, the tag): if the
+    destination branch is gone, its archive tag exists and is on the deleted tip — pushed by this job, or found
+    there by it —; no other destination or foreign ref is touched; no tag is lost. -/
 theorem C08_delete_tags_first (s : Sys) (d : Dest) (c : Commit) (hc : s.remote.get (.dest d) = some c)
     (rej : Ref → Bool) (rejTag : Bool) (tags : Tags) (k : Nat) :
-    let st := applyT s.g rej rejTag (s.remote, tags) ((planT s (.deleteBranch d)).take k)
+    let st := applyT s.g rej rejTag (s.remote, tags) ((planT s tags (.deleteBranch d)).take k)
     (st.1.get (.dest d) = some c ∨ (st.1.get (.dest d) = none ∧ Tags.get st.2 d = some c)) ∧
     (∀ r, r ≠ .q d → r ≠ .dest d → st.1.get r = s.remote.get r) ∧
     (∀ d' t, Tags.get tags d' = some t → Tags.get st.2 d' = some t) := by
@@ -234,18 +262,19 @@ def Kept (g : Graph) (refs : RefMap) (tags : Tags) (c : Commit) : Prop :=
   (∃ d t, refs.get (.dest d) = some t ∧ g.le c t = true) ∨ (∃ d t, Tags.get tags d = some t ∧ g.le c t = true)
 
 /-- **Nothing that is on a destination branch (or under an archive tag) is ever lost**: for every job — the
-    delete-branch job with its real sequence of operations —, at every crash point, whatever the server refuses,
+    delete-branch job with its real sequence of operations, computed from the tags `tags` that the remote has when the
+    job starts —, at every crash point, whatever the server refuses,
     a commit contained in a destination branch or an archive tag before is contained in one after.
     (Inductive step of "no commit that was ever on a destination branch becomes unreachable from the remote's
     branches and tags"; external events do not write destination branches or tags.) -/
 theorem C08_reachable (s : Sys) (hs : s.WF) (tags : Tags) (htags : ∀ d t, Tags.get tags d = some t → t < s.g.size)
     (ev : Event) (rej : Ref → Bool) (rejTag : Bool) (k : Nat) (c : Commit) (hc : Kept s.g s.remote tags c) :
-    let st := applyT (plan s ev).g rej rejTag (s.remote, tags) ((planT s ev).take k)
+    let st := applyT (plan s ev).g rej rejTag (s.remote, tags) ((planT s tags ev).take k)
     Kept (plan s ev).g st.1 st.2 c := by
   have hge := plan_gext hs ev
   by_cases hev : isDeleteBranchEv ev = false
   · -- no tag operation: branches as in `applyOps`
-    have hpt : planT s ev = (plan s ev).ops.map OpT.br := by
+    have hpt : planT s tags ev = (plan s ev).ops.map OpT.br := by
       cases ev <;> first | rfl | (simp [isDeleteBranchEv] at hev)
     simp only [hpt, ← List.map_take, applyT_br]
     rcases hc with ⟨d, t, ht, hle⟩ | ⟨d, t, ht, hle⟩
@@ -265,9 +294,9 @@ theorem C08_reachable (s : Sys) (hs : s.WF) (tags : Tags) (htags : ∀ d t, Tags
       · cases hc0 : s.remote.get (.dest d0) with
         | none =>
           -- the branch to delete does not exist: only the queue branch may go
-          have hpl : planT s (.deleteBranch d0) =
+          have hpl : planT s tags (.deleteBranch d0) =
               (if s.remote.has (.q d0) then [OpT.br (.delete (.q d0))] else []) := by
-            simp only [planT, planDeleteBranchT, hc0, List.append_nil]
+            simp only [planT, planDeleteBranchT, hc0]
           simp only [hpl]
           refine Or.inl ⟨d, t, ?_, hle⟩
           split
@@ -286,9 +315,9 @@ theorem C08_reachable (s : Sys) (hs : s.WF) (tags : Tags) (htags : ∀ d t, Tags
             simp only [Ref.dest.injEq] at he; exact hd he)).trans ht
     · cases hc0 : s.remote.get (.dest d0) with
       | none =>
-        have hpl : planT s (.deleteBranch d0) =
+        have hpl : planT s tags (.deleteBranch d0) =
             (if s.remote.has (.q d0) then [OpT.br (.delete (.q d0))] else []) := by
-          simp only [planT, planDeleteBranchT, hc0, List.append_nil]
+          simp only [planT, planDeleteBranchT, hc0]
         simp only [hpl]
         refine Or.inr ⟨d, t, ?_, hle⟩
         split
@@ -303,14 +332,30 @@ theorem C08_reachable (s : Sys) (hs : s.WF) (tags : Tags) (htags : ∀ d t, Tags
 /-! ### Table obligations: how the source pushes and deletes (`Gen/GitFlags.lean`, regenerated on every run) -/
 
 open BertE.Gen.GitFlags in
+/-- a call of `delete_branch` that runs unconditionally, or is skipped only when the deletion is resumed
+    (`if not archived:`); the unforced deletions (queue branches) are looked at separately -/
+def inMain (c : Call) : Bool :=
+  (c.guard == "" || c.guard == "not archived") && (c.kind != "delete" || c.forced)
+
+open BertE.Gen.GitFlags in
+/-- how `archived` may be assigned when it guards the tag: `False` unconditionally, `True` only under a test under
+    which the branch to delete is checked out (its local head is what the tagged commit is compared with) -/
+def assignOK (calls : List Call) (a : String × String) : Bool :=
+  (a.1 == "False" && a.2 == "") ||
+  (a.1 == "True" && a.2 != "" && calls.any (fun c => c.kind == "checkout" && c.guard == a.2))
+
+open BertE.Gen.GitFlags in
 /-- what C08 needs of the source: no function that builds a `git push` carries a forcing flag or a `+refspec`;
     the push of all heads is atomic; `Branch.remove` refuses names outside robot prefixes unless forced; only the
     delete-branch job passes `force`; the local `git branch -D` lives in `Branch.remove` only; in `delete_branch`
-    the tag is created on the checked-out branch and pushed before the forced deletion of that same branch, a failed
-    tag push ends the job, and nothing else is pushed there. -/
+    the tag is created on the checked-out branch and pushed (alone: no refspec with a colon) before the forced,
+    unconditional deletion of that same branch, a failed tag push ends the job, and nothing else is pushed there;
+    the tag and its push are either unconditional (the job before it could resume a deletion) or skipped together
+    under `archived`, a flag that starts as `False` and becomes `True` only after the commit of the existing archive
+    tag was compared with the tip of the checked-out branch (`resume`: different commits raise). -/
 structure TableOK (pushFns : List PushFn) (forceFlags : List String) (removeGuarded : Bool)
     (removablePrefixes : List String) (removeCalls : List RemoveCall) (localDeletes : List (String × String × String))
-    (calls : List Call) (tagAborts : Bool) : Prop where
+    (calls : List Call) (assigns : List (String × String)) (resume : Bool) (tagAborts : Bool) : Prop where
   noForce : pushFns.all (fun f => !f.plusRefspec && f.flags.all (fun t => !forceFlags.contains t)) = true
   forceKnown : (forceFlags.contains "--force" && forceFlags.contains "-f") = true
   allAtomic : pushFns.all (fun f => !f.flags.contains "--all" || f.flags.contains "--atomic") = true
@@ -319,15 +364,28 @@ structure TableOK (pushFns : List PushFn) (forceFlags : List String) (removeGuar
   onlyDeleteForces : removeCalls.all (fun c => c.force == "" || c.force == "False" ||
       (c.file == "bert_e/jobs/delete_branch.py" && c.func == "do_delete")) = true
   localDelete : localDeletes.all (fun x => x.1 == "bert_e/lib/git.py" && x.2.1 == "Branch.remove") = true
-  order : (calls.filter (fun c => c.kind != "delete" || c.forced)).map (fun c => (c.kind, c.forced)) =
+  /-- checkout, tag, push of the tag alone, forced deletion: in this order -/
+  order : ((calls.filter inMain).map (fun c => (c.kind, c.forced))) =
       [("checkout", false), ("tag", false), ("push", false), ("delete", true)]
+  /-- under any other condition: checkouts and unforced deletions only -/
+  nothingElse : (calls.filter (fun c => !inMain c)).all (fun c => c.kind == "checkout" || (c.kind == "delete" && !c.forced)) = true
+  /-- the deletion of the branch is unconditional … -/
+  deleteUnguarded : (calls.filter (·.forced)).all (fun c => c.guard == "") = true
+  /-- … the tag and its push are skipped together or not at all; the checkout before them is not skipped alone -/
+  tagPushTogether : ((calls.filter (fun c => c.kind == "tag" || c.kind == "push")).map (·.guard)).eraseDups.length = 1
+  checkoutWithTag : (calls.filter inMain).all (fun c => c.kind != "checkout" || c.guard == "" ||
+      (calls.filter (·.kind == "tag")).all (fun t => t.guard == c.guard)) = true
+  /-- skipped only when the archive tag was found on the tip of the branch -/
+  resumed : ((calls.filter (·.kind == "tag")).all (fun c => c.guard == "") ||
+      (resume && assigns.head? == some ("False", "") && assigns.all (assignOK calls))) = true
   sameBranch : ((calls.filter (fun c => c.kind == "checkout" || c.forced)).map (·.target)).eraseDups.length = 1
   unforcedAreQueue : (calls.filter (fun c => c.kind == "delete" && !c.forced)).all (fun c => c.target == "del_queue") = true
   aborts : tagAborts = true
 
 theorem C08_table : TableOK BertE.Gen.GitFlags.pushFns BertE.Gen.GitFlags.forceFlags
     BertE.Gen.GitFlags.removeGuarded BertE.Gen.GitFlags.removablePrefixes BertE.Gen.GitFlags.removeCalls
-    BertE.Gen.GitFlags.localDeletes BertE.Gen.GitFlags.deleteBranchCalls BertE.Gen.GitFlags.tagPushFailureAborts := by
+    BertE.Gen.GitFlags.localDeletes BertE.Gen.GitFlags.deleteBranchCalls BertE.Gen.GitFlags.archivedAssignments
+    BertE.Gen.GitFlags.resumeChecksTip BertE.Gen.GitFlags.tagPushFailureAborts := by
   constructor <;> decide
 
 /-- the remote operations of the source's `delete_branch`, as the model names them -/
@@ -335,16 +393,82 @@ def callKind (c : BertE.Gen.GitFlags.Call) : Option String :=
   if c.kind == "delete" then some (if c.forced then "delete-branch" else "delete-queue")
   else if c.kind == "push" then some "push-tag" else none
 
-/-- **The model's delete-branch job lists its operations in the order of the source** (whatever the state). -/
-theorem C08_delete_order_is_source (s : Sys) (d : Dest) :
-    ((planDeleteBranchT s d).map kindT).Sublist (BertE.Gen.GitFlags.deleteBranchCalls.filterMap callKind) := by
+/-- **The model's delete-branch job lists its operations in the order of the source** (whatever the state and the
+    tags: the full job, the resumed deletion without the tag, the refused job without anything). -/
+theorem C08_delete_order_is_source (s : Sys) (tags : Tags) (d : Dest) :
+    ((planDeleteBranchT s tags d).map kindT).Sublist (BertE.Gen.GitFlags.deleteBranchCalls.filterMap callKind) := by
   have hsrc : BertE.Gen.GitFlags.deleteBranchCalls.filterMap callKind =
       ["delete-queue", "push-tag", "delete-branch"] := by decide
   rw [hsrc]
   unfold planDeleteBranchT
-  cases s.remote.get (.dest d) <;> cases s.remote.has (.q d) <;>
+  cases s.remote.get (.dest d) <;> cases s.remote.has (.q d) <;> cases Tags.get tags d <;>
     simp only [Bool.false_eq_true, if_false, if_true, List.nil_append, List.cons_append, List.map_cons,
-      List.map_nil, kindT] <;> decide
+      List.map_nil, kindT] <;> (try split) <;>
+    (try simp only [List.map_cons, List.map_nil, kindT]) <;> decide
+
+/-! ### The table obligation on the shapes it must accept and reject (independent of the current source) -/
+
+section Shapes
+open BertE.Gen.GitFlags
+
+/-- the part of `TableOK` that looks at `delete_branch` only -/
+def deleteShapeOK (calls : List Call) (assigns : List (String × String)) (resume : Bool) : Prop :=
+  TableOK [] ["--force", "-f"] true [] [] [] calls assigns resume true
+
+private def tagTest := "archive_tag in repo.cmd('git tag').split('\\n')[:-1]"
+
+/-- before the resumed deletion existed: checkout, tag, push, delete — unconditional -/
+example : deleteShapeOK
+    [⟨"delete", "del_queue", false, "job.settings.use_queue"⟩, ⟨"checkout", "del_branch", false, ""⟩,
+     ⟨"tag", "git tag %s", false, ""⟩, ⟨"push", "git push origin %s", false, ""⟩, ⟨"delete", "del_branch", true, ""⟩]
+    [] false := by constructor <;> decide
+
+/-- with the resumed deletion -/
+example : deleteShapeOK
+    [⟨"checkout", "del_branch", false, tagTest⟩, ⟨"delete", "del_queue", false, "job.settings.use_queue"⟩,
+     ⟨"checkout", "del_branch", false, "not archived"⟩, ⟨"tag", "git tag %s", false, "not archived"⟩,
+     ⟨"push", "git push origin %s", false, "not archived"⟩, ⟨"delete", "del_branch", true, ""⟩]
+    [("False", ""), ("True", tagTest)] true := by constructor <;> decide
+
+/-- rejected: the tip comparison dropped (`archived = True` whenever the tag exists) -/
+example : ¬ deleteShapeOK
+    [⟨"checkout", "del_branch", false, tagTest⟩, ⟨"delete", "del_queue", false, "job.settings.use_queue"⟩,
+     ⟨"checkout", "del_branch", false, "not archived"⟩, ⟨"tag", "git tag %s", false, "not archived"⟩,
+     ⟨"push", "git push origin %s", false, "not archived"⟩, ⟨"delete", "del_branch", true, ""⟩]
+    [("False", ""), ("True", tagTest)] false := fun h => absurd h.resumed (by decide)
+
+/-- rejected: `archived` starts as `True` -/
+example : ¬ deleteShapeOK
+    [⟨"checkout", "del_branch", false, tagTest⟩,
+     ⟨"checkout", "del_branch", false, "not archived"⟩, ⟨"tag", "git tag %s", false, "not archived"⟩,
+     ⟨"push", "git push origin %s", false, "not archived"⟩, ⟨"delete", "del_branch", true, ""⟩]
+    [("True", ""), ("True", tagTest)] true := fun h => absurd h.resumed (by decide)
+
+/-- rejected: another branch is checked out when the tag is created -/
+example : ¬ deleteShapeOK
+    [⟨"checkout", "other_branch", false, ""⟩, ⟨"tag", "git tag %s", false, ""⟩,
+     ⟨"push", "git push origin %s", false, ""⟩, ⟨"delete", "del_branch", true, ""⟩]
+    [] false := fun h => absurd h.sameBranch (by decide)
+
+/-- rejected: the branch is deleted before the tag is pushed -/
+example : ¬ deleteShapeOK
+    [⟨"checkout", "del_branch", false, ""⟩, ⟨"delete", "del_branch", true, ""⟩, ⟨"tag", "git tag %s", false, ""⟩,
+     ⟨"push", "git push origin %s", false, ""⟩]
+    [] false := fun h => absurd h.order (by decide)
+
+/-- rejected: the tag and the deletion pushed in one command (the extractor marks a refspec with a colon as forced) -/
+example : ¬ deleteShapeOK
+    [⟨"checkout", "del_branch", false, ""⟩, ⟨"tag", "git tag %s", false, ""⟩,
+     ⟨"push", "git push origin %s :%s", true, ""⟩, ⟨"delete", "del_branch", true, ""⟩]
+    [] false := fun h => absurd h.order (by decide)
+
+/-- rejected: the deletion of the branch under a condition of its own, the tag skipped under another one -/
+example : ¬ deleteShapeOK
+    [⟨"checkout", "del_branch", false, ""⟩, ⟨"tag", "git tag %s", false, "job.settings.archive"⟩,
+     ⟨"push", "git push origin %s", false, "job.settings.archive"⟩, ⟨"delete", "del_branch", true, ""⟩]
+    [] false := fun h => absurd h.nothingElse (by decide)
+
+end Shapes
 
 /-! ### Non-vacuity -/
 
@@ -382,8 +506,27 @@ example : ∀ n c, Third.advance "feature/x" ≠ .point n c := fun _ _ h => noma
 
 /-- `C08_delete_tags_first` / `C08_reachable`: deleting development/4.3 of the witness state leaves the tag on its tip -/
 example :
-    let st := applyT witnessSys.g noRej false (witnessSys.remote, []) (planT witnessSys (.deleteBranch (.dev 4 (some 3))))
+    let st := applyT witnessSys.g noRej false (witnessSys.remote, []) (planT witnessSys [] (.deleteBranch (.dev 4 (some 3))))
     witnessSys.remote.get (.dest (.dev 4 (some 3))) = some 1 ∧ st.1.get (.dest (.dev 4 (some 3))) = none ∧
     Tags.get st.2 (.dev 4 (some 3)) = some 1 := by decide
+
+/-- the resumed deletion (`C08_delete_tags_first_order`, right-hand alternative): the archive tag of development/4.3
+    is already on its tip (commit 1) — the plan is the deletion alone, the tag is still there afterwards; and when
+    the server refuses the deletion nothing changes -/
+example :
+    let d := Dest.dev 4 (some 3)
+    let tags : Tags := [(d, 1)]
+    let st := applyT witnessSys.g noRej false (witnessSys.remote, tags) (planT witnessSys tags (.deleteBranch d))
+    witnessSys.remote.get (.dest d) = some 1 ∧
+    (planT witnessSys tags (.deleteBranch d)).map kindT = ["delete-branch"] ∧
+    st.1.get (.dest d) = none ∧ Tags.get st.2 d = some 1 ∧
+    (applyT witnessSys.g (fun _ => true) false (witnessSys.remote, tags) (planT witnessSys tags (.deleteBranch d))).1.get
+      (.dest d) = some 1 := by decide
+
+/-- `C08_delete_refused`: the archive tag of development/4.3 is on the root commit 0, not on the tip 1 — no operation -/
+example :
+    let d := Dest.dev 4 (some 3)
+    witnessSys.remote.get (.dest d) = some 1 ∧ Tags.get [(d, 0)] d = some 0 ∧ (0 : Commit) ≠ 1 ∧
+    planT witnessSys [(d, 0)] (.deleteBranch d) = [] := by decide
 
 end BertE.C08
